@@ -50,12 +50,17 @@ class Flow:
             return states
         evs = events_of(e)
         out = set()
-        for s in states:
-            cur = s
-            for ev in evs:
-                cur = self.transfer(ev, cur)
-            out.add(cur)
-        return out
+        cur = set(states)
+        for ev in evs:
+            nxt = set()
+            for s in cur:
+                r = self.transfer(ev, s)
+                if isinstance(r, (set, frozenset)):
+                    nxt |= r
+                else:
+                    nxt.add(r)
+            cur = nxt
+        return cur
 
     def branch(self, c, states, b):
         if self.cond is None:
